@@ -7,7 +7,7 @@
    Part B: AdministrativeInformation (AASd-005), HasSemantics (AASd-118), DataElement.category
            (AASd-090), typed values (AASd-020), BasicEventElement, LangStringSet            *)
 From Coq Require Import List ZArith Bool.
-From Basyx Require Import model.ConstraintsBase.
+From Basyx Require Import model.ConstraintsBase gen.Gen_BeeChecks.
 Import ListNotations.
 Local Open Scope Z_scope.
 
@@ -303,26 +303,45 @@ Fixpoint arun (s : adm) (ops : list aop) : adm :=
   match ops with [] => s | p :: r => arun (fst (astep s p)) r end.
 
 (* ---- BasicEventElement direction / max_interval / last_update ------------------------- *)
-(* last_update: None, tzname() == "UTC", anything else (naive or another zone) *)
-Inductive upd : Type := UNone | UUtc | UOther.
-Record bee : Type := mkBee { bin : bool (* direction = INPUT *); bmax : bool (* max_interval present *); blast : upd }.
-Inductive bop : Type := SetDirection (input : bool) | SetMaxInterval (present : bool) | SetLastUpdate (u : upd).
+(* The three setter conditions are translated from the source (gen/Gen_BeeChecks.v); a
+   max_interval is None, a zero-length (falsy) Duration, or a non-zero Duration. *)
+Record bee : Type := mkBee { bin : bool (* direction = INPUT *); bmax : pv (* max_interval *); blast : upd }.
+Inductive bop : Type := SetDirection (input : bool) | SetMaxInterval (m : pv) | SetLastUpdate (u : upd).
 
 Definition bstep (s : bee) (p : bop) : bee * option err :=
   match p with
-  | SetDirection d => if d && bmax s then (s, Some EValue) else (mkBee d (bmax s) (blast s), None)
-  | SetMaxInterval m => if m && bin s then (s, Some EValue) else (mkBee (bin s) m (blast s), None)
-  | SetLastUpdate u => match u with UOther => (s, Some EValue) | _ => (mkBee (bin s) (bmax s) u, None) end
+  | SetDirection d =>
+      match bee_direction_check d (bmax s) with
+      | Some e => (s, Some e)
+      | None => (mkBee d (bmax s) (blast s), None)
+      end
+  | SetMaxInterval m =>
+      match bee_max_interval_check m (bin s) with
+      | Some e => (s, Some e)
+      | None => (mkBee (bin s) m (blast s), None)
+      end
+  | SetLastUpdate u =>
+      match bee_last_update_check u with
+      | Some e => (s, Some e)
+      | None => (mkBee (bin s) (bmax s) u, None)
+      end
   end.
 
-(* __init__: max_interval = None; direction = d; ...; last_update = u; ...; max_interval = m *)
-Definition bctor (d : bool) (u : upd) (m : bool) : option bee * option err :=
-  match bstep (mkBee d false UNone) (SetLastUpdate u) with
-  | (_, Some e) => (None, Some e)
-  | (s1, None) =>
-      match bstep s1 (SetMaxInterval m) with
+(* __init__ (the order is checked by the translator): max_interval = None; direction = d;
+   last_update = u; max_interval = m - each through its setter.  (The first setter call runs
+   before _direction exists; a condition that read it there would raise AttributeError, which
+   the model does not represent - the SDK run would show it.) *)
+Definition bctor (d : bool) (u : upd) (m : pv) : option bee * option err :=
+  match seqs [bee_max_interval_check PNone d; bee_direction_check d PNone] with
+  | Some e => (None, Some e)
+  | None =>
+      match bstep (mkBee d PNone UNone) (SetLastUpdate u) with
       | (_, Some e) => (None, Some e)
-      | (s2, None) => (Some s2, None)
+      | (s1, None) =>
+          match bstep s1 (SetMaxInterval m) with
+          | (_, Some e) => (None, Some e)
+          | (s2, None) => (Some s2, None)
+          end
       end
   end.
 
